@@ -16,7 +16,7 @@ from pywbem import CIMError, CIMInstance, CIMInstanceName
 from simkit import modelgen as mg, opgen, wire, wbemserver
 from simkit.prng import stream, digest
 from checks.c04 import _Ids
-from checks.c14 import okey
+from checks.c14 import okey as _okey
 
 ID = 'C15'
 LEVEL = 'exploration'
@@ -76,8 +76,12 @@ def gen_plan(run_seed, tier, index):
         name = r.choice(list(ITER_TRAD)[:6] * 3 + ['IterQueryInstances'])
         a = {}
         if name == 'IterQueryInstances':
-            a['FilterQueryLanguage'] = 'DMTF:CQL'
-            a['FilterQuery'] = 'select * from C0'
+            a['FilterQueryLanguage'] = 'DMTF:FQL'
+            a['FilterQuery'] = 'select * from %s' % model['classes'][0][
+                'name']
+            ns = g.ns(False)
+            if ns is not None:
+                a['namespace'] = ns
         elif 'Enumerate' in name:
             a['ClassName'] = g.clsarg(g.cls(allow_bad=r.random() < 0.1))
             ns = g.ns(False)
@@ -123,15 +127,44 @@ def gen_plan(run_seed, tier, index):
             c['fault'] = {'at': r.choice([0, 0, 1, 1, 2, 3]), 'kind': kind,
                           'code': code}
         calls.append(c)
+        if name != 'IterQueryInstances' and r.random() < 0.3:
+            # the sibling operation (instances <-> paths) on the same
+            # connection with the same target: what the connection learned
+            # for one must not leak into the other
+            sib = name[:-1] + 'Paths' if name.endswith('Instances') \
+                else name[:-len('Paths')] + 's'
+            a2 = {k: copy.deepcopy(v) for k, v in a.items()
+                  if k not in ('DeepInheritance', 'IncludeClassOrigin',
+                               'PropertyList') or sib.endswith('Instances')}
+            calls.append({'op': sib, 'a': a2,
+                          'consume': r.choice([['exhaust'], ['exhaust'],
+                                               ['close', 1]]),
+                          'server_pull': None})
     return {'check': ID, 'model_seed': mseed, 'calls': calls,
             'use_pull': r.choice([True, False, None, None]),
             'world': r.choice(['direct', 'direct', 'wire']),
             'server_pull0': r.choice([True, True, False]),
-            'ids_seed': r.getrandbits(32)}
+            'ids_seed': r.getrandbits(32),
+            # a stub query engine behind ExecQuery / OpenQueryInstances (the
+            # mock's own one always answers CIM_ERR_NOT_SUPPORTED)
+            'query_engine': r.random() < 0.6}
 
 
 class _Fault(Exception):
     pass
+
+
+_QUERY = [False]
+
+
+def okey(o):
+    """Identity of a yielded object.  Query results are not addressable
+    instances (they travel as INSTANCE elements without path, the
+    traditional ExecQuery returns them with a path): compared by content."""
+    k = _okey(o)
+    if _QUERY[0] and k[0] == 'I':
+        return ('I', None, k[2])
+    return k
 
 
 class DirectWorld:
@@ -176,6 +209,8 @@ class DirectWorld:
 
     def fresh_client(self):
         c = self.server_conn.copy()
+        if getattr(self, 'query_engine', False):
+            mg.enable_query(c)
         return c
 
     def set_server_pull(self, enabled):
@@ -351,6 +386,9 @@ def execute(plan):
 
     world = (WireWorld if plan['world'] == 'wire' else DirectWorld)(
         model, plan['use_pull'])
+    if plan.get('query_engine'):
+        world.query_engine = True
+        mg.enable_query(world.server_conn)
     unraisable = []
     saved_hook = sys.unraisablehook
     sys.unraisablehook = lambda u: unraisable.append(u.exc_type.__name__)
@@ -359,12 +397,15 @@ def execute(plan):
         server_pull = plan['server_pull0']
         world.set_server_pull(server_pull)
         host = client.host
+        toggled = False
         for ci, call in enumerate(plan['calls']):
+            _QUERY[0] = call['op'] == 'IterQueryInstances'
             if call['server_pull'] is not None and \
                     call['server_pull'] != server_pull:
                 server_pull = call['server_pull']
                 world.set_server_pull(server_pull)
                 bump(probes, 'server_pull_toggled')
+                toggled = True
             name = call['op']
             a = call['a']
             ctx0 = set(world.contexts())
@@ -378,6 +419,8 @@ def execute(plan):
             if name == 'IterQueryInstances':
                 ta = {'QueryLanguage': a['FilterQueryLanguage'],
                       'Query': a['FilterQuery']}
+                if 'namespace' in a:
+                    ta['namespace'] = a['namespace']
             world.in_fresh = True
             fresh = world.fresh_client()
             trad = opgen.call(fresh, {'op': ITER_TRAD[name], 'a': ta}, [])
@@ -503,10 +546,15 @@ def execute(plan):
                     if out2 == 'ok':
                         direction = 'pull-assumed' if isinstance(
                             e, CIMError) else 'traditional-assumed'
-                        viol('sticky-pull-flag/' + direction,
+                        # (the known findings are about a server whose
+                        # pull capability changed under the connection)
+                        viol(('sticky-pull-flag/' if toggled else
+                              'learned-state-breaks-call/') + direction,
                              'call #%d %s%r (%s) raised %r but the same call '
-                             'on a fresh connection yields %d objects' %
-                             (ctx + (e, len(items2))))
+                             'on a fresh connection yields %d objects%s' %
+                             (ctx + (e, len(items2),
+                                     '' if toggled else '; the server never '
+                                     'changed its pull capability')))
                     elif isinstance(e, ValueError):
                         if not (bad_moc or 'FilterQuery' in a or
                                 'ContinueOnError' in a):
